@@ -54,7 +54,7 @@ def _job_worker(conn, cid, params, tier, seed, concrete, prop=None, sample=0, qu
             for i in range(sample):
                 if time.time() - t0 > tlim:
                     break
-                sub = ex.run_concrete({}, [], sampler=Sampler(seed * 1000003 + i, ct.budget.get("sample_max_mag")))
+                sub = ex.run_concrete({}, [], sampler=Sampler(seed * 1000003 + i + 15485863 * int(params.get("sample_part", 0)), ct.budget.get("sample_max_mag")))
                 nrun += 1
                 nab += sub.aborted
                 for k, v in sub.obl_count.items():
